@@ -13,7 +13,6 @@ import (
 	"context"
 	"encoding/binary"
 	"fmt"
-	"io"
 	"log"
 	"math/rand"
 	"net"
@@ -147,7 +146,7 @@ func (cc *cfgCase) construct() cfgObs {
 	defer libif.VerifDropFake(name)
 	var o cfgObs
 	o.panicked = safely(func() {
-		srv, err := server.New(context.Background(), log.New(io.Discard, "", 0), iface, cc.conf)
+		srv, err := server.New(context.Background(), log.New(logSink{}, "", 0), iface, cc.conf)
 		if err != nil {
 			o.errText = err.Error()
 			return
